@@ -104,6 +104,12 @@ def r1(ctx, g):
     dec = [c for c in fn_calls(f.node) if dotted(c.func) == "string_token_to_bytes"]
     ok = bool(dec) and all(guarded_by(ctx, f, c, lambda t: True if any(isinstance(op, ast.In) and dotted(r) == "list_props" and dotted(l) == "key" for l, op, r in compare_parts(t)) else None) for c in dec)
     ctx.ob("R1", "AGREE", f, "string_token_to_bytes under `key in list_props`", ok, "list-valued entries are decoded to bytes" if ok else "list_props values are not decoded with string_token_to_bytes")
+    # STRING tokens are unquoted by removing exactly the first and the last character, the way the grammar delimits them
+    # (and string_token_to_bytes does): [1:-1]; strip()/replace() would eat quotes that belong to the value
+    unq = [n for n in body_walk(f.node) if isinstance(n, ast.Subscript) and isinstance(n.slice, ast.Slice) and isinstance(n.value, ast.Call) and dotted(n.value.func) == "str"
+           and _c(n.slice.lower) == 1 and _c(n.slice.upper) == -1]
+    other = [src(c)[:40] for c in fn_calls(f.node) if isinstance(c.func, ast.Attribute) and c.func.attr in ("strip", "lstrip", "rstrip", "replace", "removeprefix", "removesuffix")]
+    ctx.ob("R1", "AGREE", f, "STRING tokens unquoted with [1:-1]", len(unq) >= 2 and not other, f"{len(unq)} `str(token)[1:-1]` sites; other string surgery on tokens: {other}")
     ctx.rep.count("list_props_entries", len(props), floor=8)
     ctx.rep.count("grammar_block_paths", len(paths), floor=30)
 
@@ -140,6 +146,9 @@ def r2(ctx):
         ok = cfg.dominates(cfg.node(wst), cfg.node(sets_h[0])) and cfg.dominates(cfg.node(wst), cfg.node(sets_c[0]))
         cv = origin(f.node, sets_c[0].value)
         ok = ok and "properties" in src(sets_c[0].value)
+    fresh = len(sets_c) == 1 and isinstance(sets_c[0].value, ast.Call) and dotted(sets_c[0].value.func) == "dict" and len(sets_c[0].value.args) == 1
+    ctx.ob("R2", "AGREE", f, "cache is a plain dict copy", fresh, "the cached/returned view is dict(<collected properties>): a plain dictionary" if fresh else
+           f"the cached view is {src(sets_c[0].value) if sets_c else None}: handing out the collecting defaultdict lets a failed lookup add phantom keys to the view")
     ctx.ob("R2", "AGREE", f, "hash and cache stored together after the walk", bool(ok and w_ok),
            "hash(self.tree) and the walked properties of self.tree are stored together, after the walk" if ok and w_ok else "hash/cache are not stored together after walking self.tree")
     init = ctx.repo.func("c2profile.C2Profile.__init__")
